@@ -1,7 +1,8 @@
 (** Model of /repo/bitstr/bitstr.go (same case splits, same index arithmetic,
     cmpBytes with its [la < 8] manual loop and its bytes.Compare branch).
     Byte slices and strings are [list Z]; [int]/[int32] arithmetic is unbounded
-    [Z] (size hypothesis 8*len(s)+7 < 2^31 in the theorems).  A slice
+    [Z] here; Model/Bitstr32.v restates New and Len with the int32 wraps and
+    Proofs/Bitstr32Proofs.v shows the two agree whenever toBit + 7 < 2^31.  A slice
     expression, index or [make] that Go would panic on gives [None]. *)
 From Coq Require Import ZArith List Bool.
 From Low Require Import Lib.MachInt Lib.Bits Lib.BitSeq Lib.Lex.
@@ -115,7 +116,9 @@ Definition CmpUpto (a b : list Z) : option Z :=
     | _, _ => None
     end.
 
-(** the unsafe cast only re-types the string's bytes: same function in the model *)
+(** StrCmpUpto builds a slice header over the string's bytes (Data, Len, Cap = Len;
+    since the fix 907cc2b — before, it read a 3-word slice header out of the 2-word
+    string header) and calls CmpUpto: the same function of the bytes in the model *)
 Definition StrCmpUpto (a b : list Z) : option Z := CmpUpto a b.
 
 (** [int32(l)<<3 - 16 + int32(bits.OnesCount8(bs[l-1]))] *)
